@@ -204,6 +204,7 @@ func runC17(c *Ctx) {
 		c.Check(len(why) == 0, "R3", funcName(ds), ds.Pos(), "Sign(render(snapshot)) paired with the same snapshot", strings.Join(why, "; "))
 		snapshotHasNoFormatter(c, "R3")
 		signerSelfCheck(c, "R5")
+		verifyLooksAtTheMessage(c, "R5")
 		// buffers must not be shared: the constructor stores no scratch buffers
 		ctor := p.MustFunc("server", "NewSenderWithLogger")
 		shared := ""
